@@ -1,9 +1,11 @@
 package main
 
 import (
+	"fmt"
 	"go/constant"
 	"go/token"
 	"go/types"
+	"sort"
 	"strings"
 
 	"golang.org/x/tools/go/ssa"
@@ -446,6 +448,26 @@ func impliedFacts(fs []EdgeFact, depth int, seen map[*ssa.Phi]bool) []EdgeFact {
 				}
 			} else if isErrorType(e.Type()) && definitelyNonNilErr(e, nil) {
 				state = 2
+			} else if e == ssa.Value(phi) {
+				// a loop-carried flag that is not assigned on this path: it still has the value under which
+				// the loop body was entered
+				for _, pf := range directFacts(phi.Block().Preds[i]) {
+					c, taken := pf.Cond, pf.Taken
+					for {
+						if u, ok := c.(*ssa.UnOp); ok && u.Op == token.NOT {
+							c, taken = u.X, !taken
+							continue
+						}
+						break
+					}
+					if c == ssa.Value(phi) {
+						if taken {
+							state = 2
+						} else {
+							state = 1
+						}
+					}
+				}
 			}
 			if state == 0 || state == want {
 				consistent = append(consistent, i)
@@ -629,11 +651,89 @@ type progPoint struct {
 // reachAvoiding searches forward from just after `start` for an instruction satisfying `target`,
 // never passing an instruction satisfying `stop`. Returns the first target found (or nil).
 func reachAvoiding(start ssa.Instruction, target, stop func(ssa.Instruction) bool) ssa.Instruction {
-	b := start.Block()
-	k := instrIndex(start) + 1
-	seen := map[*ssa.BasicBlock]bool{}
-	var walk func(b *ssa.BasicBlock, k int) ssa.Instruction
-	walk = func(b *ssa.BasicBlock, k int) ssa.Instruction {
+	return reachWalk(start.Block(), instrIndex(start)+1, target, stop)
+}
+
+// reachFromEntryAvoiding: is there a path from function entry to `target` avoiding `stop`?
+func reachFromEntryAvoiding(fn *ssa.Function, target, stop func(ssa.Instruction) bool) ssa.Instruction {
+	if len(fn.Blocks) == 0 {
+		return nil
+	}
+	return reachWalk(fn.Blocks[0], 0, target, stop)
+}
+
+// reachWalk searches a path from instruction k of block b to a target instruction that does not pass a
+// stop instruction. The search is path-correlated for boolean flags: a phi met on the way is resolved
+// by the edge the path took, and when its value is a boolean constant (or a phi/negation resolved
+// earlier on the path) a later branch on it is followed only in the direction that value dictates.
+// So `done := false; for !done { ...; done = true }` or `if bad { failed = true }; if failed { return }`
+// do not produce paths that no execution can take.
+func reachWalk(b *ssa.BasicBlock, k int, target, stop func(ssa.Instruction) bool) ssa.Instruction {
+	return reachWalkEnv(b, k, target, stop, nil)
+}
+
+// reachWalkEnv is reachWalk under assumptions about boolean values (e.g. "this call returned true").
+func reachWalkEnv(b *ssa.BasicBlock, k int, target, stop func(ssa.Instruction) bool, assume map[ssa.Value]bool) ssa.Instruction {
+	type state struct {
+		b, from *ssa.BasicBlock
+		sig     string
+	}
+	seen := map[state]bool{}
+	var walk func(b, from *ssa.BasicBlock, k int, env map[ssa.Value]bool, depth int) ssa.Instruction
+	walk = func(b, from *ssa.BasicBlock, k int, env map[ssa.Value]bool, depth int) ssa.Instruction {
+		if depth > 400 {
+			return nil
+		}
+		ne := env
+		if k == 0 {
+			copied := false
+			for _, in := range b.Instrs {
+				phi, ok := in.(*ssa.Phi)
+				if !ok {
+					break
+				}
+				if from == nil || basicKind(phi.Type()) != types.Bool {
+					continue
+				}
+				for i, p := range b.Preds {
+					if p != from {
+						continue
+					}
+					v, known := false, false
+					if cb, ok := constBool(phi.Edges[i]); ok {
+						v, known = cb, true
+					} else if ev, ok := env[phi.Edges[i]]; ok {
+						v, known = ev, true
+					}
+					if !copied {
+						ne = make(map[ssa.Value]bool, len(env)+1)
+						for kk, x := range env {
+							ne[kk] = x
+						}
+						copied = true
+					}
+					if known {
+						ne[phi] = v
+					} else {
+						delete(ne, phi)
+					}
+				}
+			}
+			sig := ""
+			if len(ne) > 0 {
+				var ks []string
+				for kk, x := range ne {
+					ks = append(ks, fmt.Sprintf("%s=%v", kk.Name(), x))
+				}
+				sort.Strings(ks)
+				sig = strings.Join(ks, ",")
+			}
+			st := state{b, from, sig}
+			if seen[st] {
+				return nil
+			}
+			seen[st] = true
+		}
 		for ; k < len(b.Instrs); k++ {
 			i := b.Instrs[k]
 			if stop != nil && stop(i) {
@@ -643,48 +743,36 @@ func reachAvoiding(start ssa.Instruction, target, stop func(ssa.Instruction) boo
 				return i
 			}
 		}
-		for _, s := range b.Succs {
-			if seen[s] {
-				continue
+		succs := b.Succs
+		if iff, ok := b.Instrs[len(b.Instrs)-1].(*ssa.If); ok && len(b.Succs) == 2 {
+			c, neg := iff.Cond, false
+			for {
+				if u, ok := c.(*ssa.UnOp); ok && u.Op == token.NOT {
+					c, neg = u.X, !neg
+					continue
+				}
+				break
 			}
-			seen[s] = true
-			if r := walk(s, 0); r != nil {
+			if v, ok := ne[c]; ok {
+				if v != neg {
+					succs = b.Succs[:1]
+				} else {
+					succs = b.Succs[1:2]
+				}
+			}
+		}
+		for _, s := range succs {
+			if r := walk(s, b, 0, ne, depth+1); r != nil {
 				return r
 			}
 		}
 		return nil
 	}
-	return walk(b, k)
-}
-
-// reachFromEntryAvoiding: is there a path from function entry to `target` avoiding `stop`?
-func reachFromEntryAvoiding(fn *ssa.Function, target, stop func(ssa.Instruction) bool) ssa.Instruction {
-	if len(fn.Blocks) == 0 {
-		return nil
+	env0 := map[ssa.Value]bool{}
+	for kk, x := range assume {
+		env0[kk] = x
 	}
-	seen := map[*ssa.BasicBlock]bool{fn.Blocks[0]: true}
-	var walk func(b *ssa.BasicBlock) ssa.Instruction
-	walk = func(b *ssa.BasicBlock) ssa.Instruction {
-		for _, i := range b.Instrs {
-			if stop != nil && stop(i) {
-				return nil
-			}
-			if target(i) {
-				return i
-			}
-		}
-		for _, s := range b.Succs {
-			if seen[s] {
-				continue
-			}
-			seen[s] = true
-			if r := walk(s); r != nil {
-				return r
-			}
-		}
-		return nil
-	}
-	return walk(fn.Blocks[0])
+	return walk(b, nil, k, env0, 0)
 }
 
 func isReturn(i ssa.Instruction) bool { _, ok := i.(*ssa.Return); return ok }
